@@ -223,6 +223,28 @@ CLAIMED = {
         "is given), pathlib suffix rules (Cli.complete compared on generated names), typed value "
         "conversion (re-implemented in the harness).",
    technique='Lean 4 decision tables decided by `decide` + universally quantified rejection / precedence theorems; table re-extraction, parser and end-to-end correspondence'),
+ 'C19': dict(
+   text="Proof (Lean 4; ordered field, reals for the log average): model Lay of extract_1d's "
+        "interpolation matrix (cell areas in the index rectangle, times the ellipse mask for "
+        "'cylinder', normalised; one cell for 'midpoint'), the per-layer (log) average, the merge "
+        "of equal neighbours, the slot routing by the finite mask, the finite-difference gradient. "
+        "Theorems: weights are non-negative and sum to one (any mask, any rectangle, midpoint too); "
+        "hence every method / ellipse reproduces a laterally invariant layer, linearly and through "
+        "10^(sum w log10 v); merging keeps the layering (every layer has the values of the first "
+        "layer of its run, which is kept; kept layers really differ); a slot is written iff the "
+        "observed datum is finite and the reference modeller is called with exactly the finite "
+        "frequencies in order; the layered gradient summed over a layer is the difference quotient "
+        "of that layer. Tie to code: extract_1d(return_imat=True) vs Lay.imat with exact widths and "
+        "the real ellipse mask as input, layer values, merge vs Lay.mergeIdx, _get_points; "
+        "Simulation(layered=True) with empymod.bipole wrapped: recorded calls vs the model's "
+        "record, data vs a direct reference call for all five methods, NaN pattern; gradient "
+        "layer sums vs independent difference quotients of the misfit (iso / VTI, horizontal / "
+        "vertical, three mappings, merge on and off).",
+   design='§4 C19',
+   note=TB % 'c19' + "Modelled not verified: empymod.bipole (uninterpreted reference), the mask of "
+        "maps.ellipse_indices (input of the model), truncation error of the 0.01 % finite "
+        "difference.",
+   technique='Lean 4 sums over an ordered field + real log/exp for the log average, list induction for merge and slots; float / recorded-call correspondence'),
  'C02': dict(
    text="Proof (Lean 4, over an arbitrary field K, all grid sizes/widths/coefficients/fields): the "
         "model Emg.amat of core.amat_x equals on every interior edge the assembled operator "
